@@ -260,6 +260,69 @@ def clause3(P, res):
         res.violated(rid, "value-tables", f"expected >= 5 map-typed fields carrying V in fibre_cache, found {n}")
 
 
+def clause4(P, res):
+    import re
+    rid = "C11-4"
+    res.rule(rid, "the shard array that lookups index with `hash & (len - 1)` has a power-of-two length by construction: every value written to CacheBuilder.shards is the "
+                  "result of next_power_of_two() (or copied from a snapshot, whose count is that of a built store), or else every builder method that reaches "
+                  "build_shared_core rounds the field first — with any other length the masked index and the `hash % len` index used by the bulk operations and by restore "
+                  "send one key to two shards (a removed or overwritten key stays readable through the other family of operations)")
+    masks = []
+    for b in cl.cache_bodies(P):
+        for e in b.events:
+            if e.kind == "assign" and e.data["r"]["k"] == "bin" and e.data["r"]["op"] == "BitAnd":
+                for o in (e.data["r"]["a"], e.data["r"]["b"]):
+                    evs, _, _ = mir.operand_sources(b, o)
+                    if any(x.kind == "call" and x.method == "len" and x.args and re.search(r"shards$", b.path_of_operand(x.args[0])) for x in evs):
+                        masks.append(e)
+                        break
+    if not masks:
+        res.holds(rid, "mask-sites", "no mask-indexed shard access: any shard count is fine", where="cache/src/store.rs", nontrivial=False)
+        return
+    def rounded(b, op):
+        evs, _, _ = mir.operand_sources(b, op)
+        if any(x.kind == "call" and x.method == "next_power_of_two" for x in evs):
+            return "next_power_of_two"
+        pth = b.path_of_operand(op)
+        if re.search(r"snapshot\.shards$", pth):
+            return "copied from a snapshot (count of a built store)"
+        return None
+    writes = []
+    for b in cl.cache_bodies(P):
+        for e in b.events:
+            if e.kind != "assign":
+                continue
+            r = e.data["r"]
+            if r["k"] == "agg" and r["adt"].endswith("builder::CacheBuilder") and "shards" in (r.get("fields") or []):
+                writes.append((b, e, r["ops"][r["fields"].index("shards")]))
+            elif e.data["p"][1] and e.data["p"][1][-1] in (".shards", ".^shards") and "CacheBuilder" in b.locals[e.data["p"][0]].get("ty", "") and r["k"] == "use":
+                writes.append((b, e, r["o"]))
+    if len(writes) < 3:
+        res.unclassified(rid, "shards-writes", f"expected >= 3 writes of CacheBuilder.shards (default, setter, from-snapshot), found {len(writes)}", where="rules/c11.py")
+        return
+    raw = [(b, e) for b, e, o in writes if not rounded(b, o)]
+    for b, e, o in writes:
+        if rounded(b, o):
+            res.holds(rid, f"{b.id}:shards-write", f"shards <- {rounded(b, o)}", where=e.loc)
+    if not raw:
+        return
+    core = "fibre_cache::builder::CacheBuilder::<K, V, H>::build_shared_core"
+    entries = [b for b in cl.cache_bodies(P) if any(e.callee_resolved == core or e.callee == core for e in b.calls())]
+    if not entries:
+        res.unclassified(rid, "entries", "no caller of build_shared_core found", where="rules/c11.py")
+    for en in entries:
+        call = [e for e in en.calls() if e.callee_resolved == core or e.callee == core][0]
+        ok = [e for b, e, o in writes if b is en and rounded(b, o) and en.dominated_by_any(call.pos, {e.pos})]
+        key = f"{en.id}:rounds-before-build"
+        if ok:
+            res.holds(rid, key, f"rounds the shard count at {ok[0].loc} before building", where=ok[0].loc)
+        else:
+            rb, re_ = raw[0]
+            res.violated(rid, key, f"{en.name} builds the store with whatever CacheBuilder.shards holds, and {rb.name} stores an unrounded value into it at {re_.loc}: "
+                         f"with a length that is not a power of two the {len(masks)} masked lookups (`hash & (len-1)`) and the `hash % len` sites disagree about a key's shard",
+                         where=call.loc, witness=[f"unrounded write {re_.loc}"] + [f"mask {m.loc}" for m in masks[:4]])
+
+
 def run(P, ctx):
     res = Result("C11")
     res.extra["explanation"] = ("Entry-guard continuity, compute exclusivity, blocking/async sibling agreement, and (by reference) the expiry gate on every read path. "
@@ -267,5 +330,6 @@ def run(P, ctx):
     clause1(P, res)
     clause2(P, res)
     clause3(P, res)
+    clause4(P, res)
     res.notes.append("the expiry gate on read paths is decided under C12-1 (and C17-1 for iterators/snapshots); it is not repeated here")
     return res
